@@ -842,8 +842,6 @@ def xop_rt_anc(node, op):
     contain the object in ``slot`` as a proper sub-node (by identity)."""
     import pickle
 
-    from ufl.corealg.traversal import unique_pre_traversal
-
     _, _, slot, how, k = op
     a = node.get(slot)
     if not isinstance(a, Expr):
@@ -854,10 +852,21 @@ def xop_rt_anc(node, op):
         x = node.slots[s_]
         if not isinstance(x, Expr) or x is a or s_ == slot:
             continue
-        try:
-            if ops.is_cyclic(x) or not any(n_ is a for n_ in unique_pre_traversal(x)):
+        # identity walk that never hashes a node (hashing would re-fill the very caches
+        # whose staleness is being looked for)
+        found = False
+        seen = set()
+        stack = [x]
+        while stack and len(seen) < 20000:
+            n_ = stack.pop()
+            if id(n_) in seen:
                 continue
-        except BaseException:  # noqa: B036
+            seen.add(id(n_))
+            if n_ is a:
+                found = n_ is not x
+                break
+            stack.extend(getattr(n_, "ufl_operands", ()))
+        if not found:
             continue
         done += 1
         try:
